@@ -2,6 +2,7 @@ let () =
   Util.self_check ();
   match Sys.argv with
   | [| _; "c03" |] -> C03.run ()
+  | [| _; "c15" |] -> C15.run ()
   | [| _; "script"; f |] -> Script.run f
   | [| _; "judge"; f; o |] -> Judge.run f o
   | _ -> prerr_endline "usage: gvmodel <subcommand>"; exit 2
